@@ -288,3 +288,18 @@ func funcDecls(pkg *packages.Package) []*ast.FuncDecl {
 
 	return out
 }
+
+// lookupConstInt returns the value of an integer package-level constant.
+func lookupConstInt(pkg *packages.Package, name string) *int64 {
+	c, ok := lookupObj(pkg, name).(*types.Const)
+	if !ok || c.Val().Kind() != constant.Int {
+		return nil
+	}
+
+	v, exact := constant.Int64Val(c.Val())
+	if !exact {
+		return nil
+	}
+
+	return &v
+}
